@@ -64,7 +64,7 @@ let show_val (v:av) : string =
 let show_vals (l:av list) = if l = [] then "-" else String.concat ";" (List.map show_val l)
 
 let count_scan (text:z list) : string =
-  match count_printed_arg_vals text with
+  match count_printed_arg_vals dec2f dec2d text with
   | Ok (ok, n) ->
     let n = int_of_z n in
     let c = if ok then n else -n in
@@ -90,6 +90,24 @@ let () = each_line (fun line ->
          | None -> "PRINT-UNMODELLED"
          | Some (text, wrt) ->
            Printf.sprintf "P=%s W=%s %s" (hex_of_bytes text) (z_to_string wrt) (count_scan text))
+      | "pm" :: ll :: pr :: co :: lo :: vals :: addr :: _ ->
+        let o = { lossless = (lo <> "0"); prec = z_of_string pr; linelength = z_of_string ll;
+                  compress = (co <> "0") } in
+        (match print_message o (bytes_of_hex addr) (parse_vals vals) Z0 with
+         | None -> "PRINT-UNMODELLED"
+         | Some (text, wrt) ->
+           let head = Printf.sprintf "P=%s W=%s " (hex_of_bytes text) (z_to_string wrt) in
+           head ^ (match count_printed_arg_vals_of_msg dec2f dec2d text with
+             | Ok (ok, n) ->
+               let n = int_of_z n in
+               let c = if ok then n else -n in
+               if c <= 0 then Printf.sprintf "C=%d N=-1 R=-1 V=-" c
+               else (match scan_message dec2f dec2d text (z_of_int c) with
+                   | Ok ((a, vs), rest) ->
+                     Printf.sprintf "C=%d N=%d R=%d V=%s A=%s" c (List.length vs)
+                       (List.length text - List.length rest) (show_vals vs) (hex_of_bytes a)
+                   | Null -> "SCAN-NULL" | Unmod -> "SCAN-UNMODELLED" | NoFuel -> "SCAN-NOFUEL")
+             | Null -> "COUNT-NULL" | Unmod -> "COUNT-UNMODELLED" | NoFuel -> "COUNT-NOFUEL"))
       | "sc" :: h :: _ -> count_scan (bytes_of_hex h)
       | _ -> "BADCASE"
     with Failure m -> "DRIVER-ERROR " ^ m
